@@ -15,8 +15,8 @@
 //!                     written form changed, and the eq? row of the new object; at the end the
 //!                     full eq? matrix.
 //! 41 npool step*      as 40 but prints only the status and result of the LAST step (used for
-//!                     procedures that must terminate on circular data: list?); guarded by a
-//!                     watchdog thread, prints TIMEOUT on a hang.
+//!                     procedures that must terminate on circular data: list?).
+//! Both run under a watchdog: a case that hangs makes the process exit with status 3 (see `guarded`).
 #![allow(unused_imports, dead_code)]
 use crate::text::*;
 use marwood::cell::Cell;
@@ -323,26 +323,31 @@ fn run_seq(c: &[String], last_only: bool) -> String {
     out
 }
 
+/// Runs one case on a worker thread.  A case that does not finish within the limit is a hang of
+/// the implementation (e.g. `length` on a list that a defective procedure made circular): the
+/// thread cannot be stopped, so the whole process exits with status 3 WITHOUT printing; the runner
+/// then replays the shard case by case and records `ABORT(3)` for the hanging one.
+fn guarded(c: &[String], last_only: bool, limit_s: u64) -> String {
+    let owned: Vec<String> = c.to_vec();
+    let (tx, rx) = std::sync::mpsc::channel();
+    std::thread::Builder::new()
+        .stack_size(256 << 20)
+        .spawn(move || {
+            let r = catch_unwind(AssertUnwindSafe(|| run_seq(&owned, last_only)));
+            let _ = tx.send(r.unwrap_or_else(|_| "PANIC".into()));
+        })
+        .unwrap();
+    match rx.recv_timeout(std::time::Duration::from_secs(limit_s)) {
+        Ok(s) => s,
+        Err(_) => std::process::exit(3),
+    }
+}
+
 pub fn run(c: &[String]) -> String {
     let id: u64 = c[0].parse().unwrap_or(0);
     match id {
-        40 => run_seq(c, false),
-        41 => {
-            // watchdog: a hang is reported as TIMEOUT (the spinning thread is abandoned)
-            let owned: Vec<String> = c.to_vec();
-            let (tx, rx) = std::sync::mpsc::channel();
-            std::thread::Builder::new()
-                .stack_size(64 << 20)
-                .spawn(move || {
-                    let r = catch_unwind(AssertUnwindSafe(|| run_seq(&owned, true)));
-                    let _ = tx.send(r.unwrap_or_else(|_| "PANIC".into()));
-                })
-                .unwrap();
-            match rx.recv_timeout(std::time::Duration::from_secs(5)) {
-                Ok(s) => s,
-                Err(_) => "TIMEOUT".into(),
-            }
-        }
+        40 => guarded(c, false, 4),
+        41 => guarded(c, true, 4),
         _ => "BADCASE".into(),
     }
 }
